@@ -25,11 +25,13 @@
 (* The constant MassCacheKeyed selects how the space caches its mass       *)
 (* matrix: FALSE = one matrix, computed at the order of its first use      *)
 (* (the code before the fix; TLC then finds the shortest interfering       *)
-(* history), TRUE = per quadrature order.                                  *)
+(* history), TRUE = per quadrature order.  MassHonoursExplicit selects     *)
+(* whether strong_form hands the operator's parameter object to the mass   *)
+(* matrix (TRUE, since fix d373db3) or always uses the global one (FALSE). *)
 (***************************************************************************)
 EXTENDS Integers, Sequences, FiniteSets, TLC, Json
 
-CONSTANTS Slots, Kinds, RegVals, SingVals, MassCacheKeyed, MaxDepth, EmitJson
+CONSTANTS Slots, Kinds, RegVals, SingVals, MassCacheKeyed, MassHonoursExplicit, MaxDepth, EmitJson
 
 VARIABLES glob, pobj, op, mass, last, depth, hist
 vars == <<glob, pobj, op, mass, last, depth, hist>>
@@ -89,14 +91,19 @@ MassMatrix ==
     /\ Obs("mass_matrix", 0, <<MassOrderNow>>, <<>>)
     /\ UNCHANGED <<glob, pobj, op>>
 
+\* strong_form hands the operator's own parameter object to the mass-matrix assembly (MassHonoursExplicit = TRUE, the code since the fix
+\* d373db3); before, the mass matrix was always assembled with the global object (FALSE: negative configuration)
+MassOrderFor(o) == IF MassHonoursExplicit /\ op[o].pref = "P"
+                   THEN (IF MassCacheKeyed THEN pobj.reg ELSE IF mass = {} THEN pobj.reg ELSE CHOOSE m \in mass : TRUE)
+                   ELSE MassOrderNow
 StrongForm(o) ==
     /\ op[o].kind \in {"slp", "hyp", "idt"}
     /\ LET w == IF op[o].weak = <<>> THEN Eff(o) ELSE op[o].weak
-           s == IF op[o].strong = <<>> THEN <<MassOrderNow>> ELSE op[o].strong
+           s == IF op[o].strong = <<>> THEN <<MassOrderFor(o)>> ELSE op[o].strong
        IN /\ op' = [op EXCEPT ![o].weak = w, ![o].strong = s]
           /\ Obs("strong_form", o, w \o s, <<>>)
           /\ mass' = IF op[o].strong # <<>> THEN mass
-                     ELSE IF MassCacheKeyed THEN mass \cup {glob.reg} ELSE IF mass = {} THEN {glob.reg} ELSE mass
+                     ELSE IF MassCacheKeyed THEN mass \cup {MassOrderFor(o)} ELSE IF mass = {} THEN {MassOrderFor(o)} ELSE mass
     /\ UNCHANGED <<glob, pobj>>
 
 Evaluate(o) ==
@@ -130,15 +137,11 @@ ExplicitHonoured ==
     [][\A o \in Slots : (op[o].kind \in {"slp", "hyp", "idt"} /\ op[o].weak = <<>> /\ op'[o].weak # <<>>)
                             => op'[o].weak = Eff(o)]_vars
 
-\* first strong-form evaluation uses the mass matrix a fresh process would compute now, whatever was called before
+\* first strong-form evaluation uses the mass matrix a fresh process would compute now from the operator's own parameter object
+\* (the global one for operators created without), whatever was called before
 NoInterference ==
     [][\A o \in Slots : (op[o].kind # "none" /\ op[o].strong = <<>> /\ op'[o].strong # <<>>)
-                            => op'[o].strong = <<glob.reg>>]_vars
-
-\* NOT required of the current tree (recorded finding): the explicit object is not consulted for the mass matrix
-ExplicitHonouredByMass ==
-    [][\A o \in Slots : (op[o].kind # "none" /\ op[o].pref = "P" /\ op[o].strong = <<>> /\ op'[o].strong # <<>>)
-                            => op'[o].strong = <<pobj.reg>>]_vars
+                            => op'[o].strong = <<Params(o).reg>>]_vars
 
 \* exhaustive runs look at the state without the history variables
 View == <<glob, pobj, op, mass, depth>>
